@@ -4,6 +4,7 @@ Property theorems only (helpers: Model/PosLemmas.lean, Gem/Theory.lean).  Stated
 code points + the real segmentation (`cxA`), whose well-formedness comes from the finite-state theory.
 -/
 import RosedVerif.Model.InstAFacts
+import RosedVerif.Gen.IntFns
 namespace RosedVerif.Props
 open RosedVerif
 
@@ -50,5 +51,22 @@ example : (Spec.selectClusters cxA [0x65, 0x301, 0x1F1E9, 0x1F1EA, 0x301, 0x61] 
     ([0x65, 0x301], [0x1F1E9, 0x1F1EA, 0x301, 0x61], []) := by decide +kernel
 example : (Spec.selectClusters cxA [0x65, 0x301, 0x61, 0x62] 2 1) = ([0x65, 0x301, 0x61], [], [0x62]) := by
   decide +kernel
+
+/-- **regenerated tie**: `Gen.rangeToIndexes` is translated from the source text of
+`util.RangeToIndexes` (and of any helper it calls) on every run (harness/intfn.go: go/ast → Lean,
+unbounded `Int`); for every size ≥ 0 and ALL integer positions it equals the documented
+normalisation `Spec.normRangeRaw` (negative from the end, clamping, reversed ⇒ empty at start) and
+the hand-written model.  The proof is a decision procedure (`grind` over the if-chains), so an
+equivalent rewrite of the Go function re-proves by itself and a wrong one does not.  When the
+function leaves the translator's Go subset, `intFnsExtracted = false` and the statement is vacuous
+(the tie then rests on the correspondence groups alone). -/
+theorem C04_rangeToIndexes_regenerated (_h : Gen.intFnsExtracted = true) (n s e : Int) (_hn : 0 ≤ n) :
+    Gen.rangeToIndexes n s e = Spec.normRangeRaw n s e ∧
+    Gen.rangeToIndexes n s e = rangeToIndexes n s e := by
+  have key : Gen.rangeToIndexes n s e = rangeToIndexes n s e := by
+    first
+      | exact absurd _h (by decide)
+      | (unfold rangeToIndexes; unfold_gen_intfns; grind)
+  exact ⟨key.trans (rangeToIndexes_eq n s e _hn), key⟩
 
 end RosedVerif.Props
